@@ -1,4 +1,5 @@
 import KpModel.Db.MergeLemmas
+import KpModel.Db.MergeInv
 import KpModel.Db.MergeSpec
 /-!
 # C15 — merge honours deletions exactly when they are newer, and never resurrects
@@ -141,5 +142,24 @@ theorem deletion_time_equal_keeps (now : Int) (s : St) (nt : List Tomb) (d : Tom
 def C15_full (WellFormedPair : Db → Db → Prop) : Prop :=
   ∀ (now : Int) (a b r : Db) (evs : List Event), WellFormedPair a b → merge now a b = .ok (r, evs) →
     Kp.MergeSpec.c15Clauses a b r = []
+
+/-- **C15 (never resurrects)**: a node the destination has already deleted — tombstoned there and absent from its tree — is
+    not below the root of what `merge` returns, whatever the source holds (the node itself, newer versions of it, children
+    below it): entries and groups are created only under UUIDs the destination has no tombstone for, everything else the
+    group passes do is an update in place or a move, and the deletion passes only remove.  For every destination that is a
+    group with pairwise distinct UUIDs below it and every source. -/
+theorem C15_never_resurrects (now : Int) (dst src d' : Db) (evs : List Event) (hr : dst.root.isGroup = true)
+    (hn : (uuidsL dst.root.children).Nodup) (h : merge now dst src = .ok (d', evs)) (u : Nat)
+    (ht : tombsContain dst.tombs u = true) (hu : u ∉ uuidsL dst.root.children) : u ∉ uuidsL d'.root.children :=
+  merge_noResurrection now dst src d' evs ⟨hr, hn⟩ h u ht hu
+
+/-- **C15 (no node is both present and tombstoned)**: when no node of the destination has a tombstone in the destination's own
+    list, no node of what `merge` returns has a tombstone in the list it returns — created nodes have no tombstone in the
+    destination, a tombstone taken over from the source goes with the removal of its node, and under pairwise distinct UUIDs
+    the removed node was the only one with that UUID.  For every source. -/
+theorem C15_no_node_present_and_tombstoned (now : Int) (dst src d' : Db) (evs : List Event) (hr : dst.root.isGroup = true)
+    (hn : (uuidsL dst.root.children).Nodup) (hc : ∀ u ∈ uuidsL dst.root.children, tombsContain dst.tombs u = false)
+    (h : merge now dst src = .ok (d', evs)) : ∀ u ∈ uuidsL d'.root.children, tombsContain d'.tombs u = false :=
+  merge_clean now dst src d' evs ⟨hr, hn⟩ hc h
 
 end Kp.Merge
